@@ -53,6 +53,13 @@ type ioDelegate struct {
 	outfile *os.File
 	cache   *cache.File
 	tmpin   bool
+	done    bool
+}
+
+// Commit marks the run as successful: only then Close keeps the cache entry
+// that was being written.
+func (d *ioDelegate) Commit() {
+	d.done = true
 }
 
 func newIODelegate(inpath, outpath string) (*ioDelegate, error) {
@@ -71,7 +78,7 @@ func newIODelegate(inpath, outpath string) (*ioDelegate, error) {
 		}
 	}
 
-	return &ioDelegate{input, output, nil, false}, nil
+	return &ioDelegate{input, output, nil, false, false}, nil
 }
 
 func (d *ioDelegate) Read(p []byte) (int, error) {
@@ -167,7 +174,7 @@ func (d *ioDelegate) Close() error {
 	defer d.outfile.Close()
 
 	if d.cache != nil {
-		if err := d.cache.Close(); err != nil {
+		if err := d.cache.Close(); err != nil || !d.done {
 			os.Remove(d.cache.Name())
 		}
 	}
